@@ -109,6 +109,7 @@ OBLIGATIONS = [
     native("n_c08_kdata_bridges", ["C08"], "C08.kdata.bridges", "KData::from(&EnergyProps)", EN + "n_c08_kdata_bridges"),
     native("n_c11_poly", ["C11"], "C11.poly", "Polygon::area / Polygon::perimeter", RN + "n_c11_poly"),
     native("n_c11_poly_large", ["C11"], "C11.poly.large", "Polygon::area / Polygon::perimeter", RN + "n_c11_poly_large"),
+    native("n_c11_height_net", ["C11", "C09"], "C11.height_net", "Space::height_net / EnergyProps::from (vol_env_net)", RN + "n_c11_height_net"),
     native("n_c11_props_model", ["C11", "C08", "C09"], "C11.props", "EnergyProps::from(&Model) / Model::global_ventilation_rate / Space::area / Space::height_net / Wall::area_net", RN + "n_c11_props_model"),
     native("n_c11_scaling", ["C11"], "C11.scaling", "EnergyProps::from(&Model)", RN + "n_c11_scaling"),
     native("n_c15_check", ["C15"], "C15.check", "check(&Model) / EnergyIndicators::compute", RN + "n_c15_check"),
